@@ -393,6 +393,18 @@ c.raises('exceptions.WriteOverflowError', when="len(self.value) >= 4294967296")
 c.ensures("ostream.buffer == old(ostream.buffer) + enc_text_string(self.tag, self.value)", name="spec-encoding")
 c.modifies("ostream.buffer")
 
+# C02 for text that is NOT restricted to ASCII: whatever the writer emits is as long as the length
+# field and padding (computed by __init__ / read from the number of characters) say - or it raises
+# and emits no complete item.  (For ASCII text the variants above give the exact bytes.)
+c = contract(P + "TextString.write_value", variant="any-text").props('C02')
+c.args(self=TEXT_RAW, ostream=STREAM, kmip_version=KV)
+c.requires(INV)
+c.loop(0, "len(ostream.buffer) == len(old(ostream.buffer)) + len(done)", modifies=["ostream.buffer"])
+c.raises('struct.error')
+c.ensures("len(ostream.buffer) == len(old(ostream.buffer)) + self.length + self.padding_length",
+          name="emits-exactly-the-declared-number-of-bytes")
+c.modifies("ostream.buffer")
+
 # completeness ("accepts every encoding"): ghost witnesses v0, rest0
 c = contract(P + "TextString.read_value", variant="accepts").props('C01')
 c.args(self=TEXT_RAW, istream=STREAM, kmip_version=KV)
